@@ -113,6 +113,18 @@ def handle (d : DSt) (ws : List String) : DSt × String :=
       ({ d with doc := some y, data := r, loaded := true }, (if r.isSome then "ok" else "err") ++ mark)
     | _, _ => (d, "bad-op")
   | ["dump"] => (d, match d.data with | some y => render y | none => "noconfig")
+  | ["gettyped", kind, p] =>
+    -- typed Get: the value at the path must have the requested kind (the harness asks for the
+    -- kind the document has there)
+    (d, match d.data with
+      | some (.map m) => (match extract m (splitPath p) with
+        | some v =>
+          let ok := match kind, v with
+            | "str", .str _ => true | "int", .int _ => true | "bool", .bool _ => true
+            | "list", .list _ => true | "map", .map _ => true | _, _ => false
+          if ok then render v else "kind-mismatch:" ++ render v
+        | none => "notfound")
+      | _ => "noconfig")
   | ["getnull", p] =>
     (d, match d.data with
       | some (.map m) => (match extract m (splitPath p) with
